@@ -76,10 +76,12 @@ def lu_model(a, *args, **kw):
 # parametrised contract stubs
 
 REGISTRY = {}      # (name, key) -> factors
+ALLOW_ORTHONORMAL_QR = [False]
 
 
 def clear():
     REGISTRY.clear()
+    ALLOW_ORTHONORMAL_QR[0] = False
 
 
 def register(name, A0, factors):
@@ -94,8 +96,27 @@ def _lookup(name, a):
 
 
 def qr_stub(a, mode='reduced', *args, **kw):
+    if ('qr', _key(a)) not in REGISTRY and ALLOW_ORTHONORMAL_QR[0]:
+        Q, R = _orthonormal_qr(a)
+        npx._hit('qr(orthogonal input, unused result)')
+        return npx.SArr(_obj(Q), float), npx.SArr(_obj(R), float)
     Q, R = _lookup('qr', a)
     return npx.SArr(_obj(Q), float), npx.SArr(_obj(R), float)
+
+
+def _orthonormal_qr(a):
+    """generic fallback: full QR of a square matrix that the caller knows to be orthogonal
+    (UTPM.svd calls qr_full on sqrt(2) Q[:M,:r] only to slice away the result when r = M):
+    A = A I is a valid QR factorisation of an orthogonal matrix"""
+    a = _obj(a)
+    n, m = a.shape
+    if n != m:
+        raise S.SymError('qr stub: no registered factors and not square')
+    I = np.empty((n, n), dtype=object)
+    for i in range(n):
+        for j in range(n):
+            I[i, j] = S.const(1 if i == j else 0)
+    return a, I
 
 
 def scipy_qr_stub(a, *args, **kw):
